@@ -133,10 +133,14 @@ build_body(void *arg) {
 
 /* ---------------- damage variants ---------------- */
 
-enum { DV_NOMETA = 0, DV_NOCURRENT, DV_TRUNC_HALF, DV_TRUNC_LAST, DV_TRUNC_ZERO, DV_GARBAGE_CURRENT, DV_DROP_TABLE0, DV_DROP_TABLE1, DV_REPAIR_TWICE, DV_STALE_MAN1, DV_COUNT };
+enum { DV_NOMETA = 0, DV_NOCURRENT, DV_TRUNC_HALF, DV_TRUNC_LAST, DV_TRUNC_ZERO, DV_GARBAGE_CURRENT, DV_DROP_TABLE0, DV_DROP_TABLE1, DV_REPAIR_TWICE, DV_STALE_MAN1, DV_DAMAGED_TABLE0, DV_DAMAGED_TABLE1, DV_COUNT };
 static const char *dvname[] = {"MANIFEST+CURRENT deleted", "CURRENT deleted", "MANIFEST cut in half", "MANIFEST cut 1 byte short", "MANIFEST emptied",
                                "CURRENT holds garbage", "oldest table deleted", "newest table deleted",
-                               "MANIFEST+CURRENT deleted, ldb_repair run twice before the open", "MANIFEST+CURRENT deleted, a stale garbage MANIFEST-000001 left in the directory"};
+                               "MANIFEST+CURRENT deleted, ldb_repair run twice before the open", "MANIFEST+CURRENT deleted, a stale garbage MANIFEST-000001 left in the directory",
+                               "MANIFEST+CURRENT deleted, the LAST data block of the oldest table damaged (repair run with paranoid_checks salvages what is readable)",
+                               "MANIFEST+CURRENT deleted, the FIRST data block of the newest table damaged (repair run with paranoid_checks salvages what is readable)"};
+
+static uint64_t dam_file;   /* number of the table damaged by the current variant (0 = none) */
 
 static int
 apply_damage(vfs_t *v, int dv) {
@@ -185,6 +189,30 @@ apply_damage(vfs_t *v, int dv) {
       snprintf(p, sizeof(p), "%s/CURRENT", DB);
       vfs_put_file(v, p, "MANIFEST-999999\n", 16);
       return 1;
+    case DV_DAMAGED_TABLE0: case DV_DAMAGED_TABLE1: {
+      /* one byte inside one data block flipped: the block's CRC no longer matches, the rest of the table is intact */
+      const vinode_t *ino;
+      ref_table_t t;
+      unsigned char *copy;
+      size_t at;
+      if (ntab < 1) return 0;
+      snprintf(p, sizeof(p), "%s/%06llu.ldb", DB, (unsigned long long)(dv == DV_DAMAGED_TABLE0 ? tmin : tmax));
+      ino = vfs_inode(v, vfs_lookup(v, p));
+      if (!ino) return 0;
+      ref_table_init(&t);
+      if (ref_table_read(ino->data, ino->len, NULL, 8, 0, &t) != 0 || t.nblk < 1) { ref_table_free(&t); return 0; }
+      at = (size_t)(dv == DV_DAMAGED_TABLE0 ? t.blk[t.nblk - 1].off : t.blk[0].off) + 1;
+      ref_table_free(&t);
+      copy = malloc(ino->len);
+      memcpy(copy, ino->data, ino->len);
+      copy[at] ^= 0x40;
+      dam_file = dv == DV_DAMAGED_TABLE0 ? tmin : tmax;
+      vfs_put_file(v, p, copy, ino->len);
+      free(copy);
+      snprintf(p, sizeof(p), "%s/%s", DB, man); vfs_remove(v, p);
+      snprintf(p, sizeof(p), "%s/CURRENT", DB); vfs_remove(v, p);
+      return 1;
+    }
     case DV_DROP_TABLE0: case DV_DROP_TABLE1:
       if (ntab < 2) return 0;
       snprintf(p, sizeof(p), "%s/%06llu.ldb", DB, (unsigned long long)(dv == DV_DROP_TABLE0 ? tmin : tmax));
@@ -206,6 +234,7 @@ typedef struct job_s {
   char sig[64];
   char err[600];
   uint64_t outcome;
+  uint64_t dam_file;
 } job_t;
 
 static void
@@ -227,6 +256,20 @@ repair_body(void *arg) {
   j->ok = 1;
   kh_init(&h, &cfg, DB);
   pre_names = vfs_jlen(vfs_cur);
+  if (j->dam_file) {
+    /* What survives of a table with one damaged block is what a checksum-verifying reader can still read.  The
+     * oracle asks no more than: the version served is the newest one of the INTACT files, or a newer one that the
+     * damaged table held (whether repair salvages that one is its business) - and lookups agree with the iterator. */
+    h.o.opt.paranoid_checks = 1;
+    for (k = 0; k < kv_nkeys; k++) {
+      int a;
+      ver_t bi;
+      memset(&bi, 0, sizeof(bi));
+      for (a = 0; a < j->nall[k]; a++)
+        if (j->all[k][a].file != j->dam_file && (!bi.present || j->all[k][a].seq > bi.seq)) bi = j->all[k][a];
+      j->best[k] = bi;
+    }
+  }
   rc = ldb_repair(DB, &h.o.opt);
   n_repairs++;
   if (rc == LDB_OK && cur_dv == DV_REPAIR_TWICE) {
@@ -266,6 +309,19 @@ repair_body(void *arg) {
     int want_present = j->best[k].present && !j->best[k].del;
     int want_vid = want_present ? j->best[k].vid : 0;
     int gvid = 0, gp = 0;
+    if (j->dam_file) {
+      /* the iterator may also show a version of the damaged table that is newer than every intact one */
+      int a;
+      for (a = 0; a < j->nall[k]; a++) {
+        ver_t *x = &j->all[k][a];
+        if (x->file == j->dam_file && (!j->best[k].present || x->seq > j->best[k].seq) &&
+            itp[k] == !x->del && (x->del || itv[k] == x->vid)) {
+          j->best[k] = *x;
+          want_present = !x->del;
+          want_vid = want_present ? x->vid : 0;
+        }
+      }
+    }
     rc = ldb_get(h.db, &key, &val, NULL);
     if (rc == LDB_OK) {
       int vid, sz;
@@ -399,6 +455,7 @@ explore_state(const hist_t *h, int only_dv) {
     if (only_dv >= 0 && dv != only_dv) continue;
     if (only_dv < 0 && !drv_mine(case_counter++)) continue;
     w = vfs_clone(tmpl);
+    dam_file = 0;
     if (!apply_damage(w, dv)) { vfs_free(w); continue; }
     cur_dv = dv;
     vfs_base_snapshot(w);
@@ -409,7 +466,9 @@ explore_state(const hist_t *h, int only_dv) {
       drv_case("{\"history\":\"%s\",\"cfg\":\"%s\",\"damage\":%d}", hb.p ? hb.p : "", cfgtxt, dv);
       vb_free(&hb);
     }
-    if (!surviving(w, j.best, j.all, j.nall, e, sizeof(e))) {
+    j.dam_file = dam_file;
+    /* a damaged table: the versions are read from the image before the damage; those of the damaged table are optional */
+    if (!surviving(dam_file ? tmpl : w, j.best, j.all, j.nall, e, sizeof(e))) {
       vfs_free(w);
       continue; /* harness could not establish the expectation (never happens on intact tables) */
     }
@@ -513,7 +572,7 @@ main(int argc, char **argv) {
   copy = strdup(cfgs);
   for (item = strtok_r(copy, ";", &save); item && !stop_now; item = strtok_r(NULL, ";", &save)) {
     if (!kcfg_parse(&cfg, item)) vh_die("bad cfg");
-    drv_note("cfg %s: every history of length <= %d over %d ops from the empty database and of length <= %d from each of 8 scripted layouts x 10 damage variants", item, len, nalpha, sdepth);
+    drv_note("cfg %s: every history of length <= %d over %d ops from the empty database and of length <= %d from each of 8 scripted layouts x 12 damage variants", item, len, nalpha, sdepth);
     enumerate(len, sdepth);
   }
   free(copy);
